@@ -139,6 +139,21 @@ def main():
         ingest(a.a, a.b, a.name)
     elif a.cmd == "eval":
         evaluate(a.a, a.tier, a.props.split(","))
+    elif a.cmd == "evalmatrix":
+        # every kept seed against every check (quick tier), in parallel; writes seeded/MATRIX.md
+        from concurrent.futures import ThreadPoolExecutor
+
+        names = [os.path.basename(os.path.dirname(m)) for m in sorted(glob.glob(os.path.join(SEEDED, "*", "meta.json")))
+                 if json.load(open(m)).get("kept")]
+        allp = ["C%02d" % i for i in range(1, 21)]
+        with ThreadPoolExecutor(int(a.b or 6)) as ex:
+            res = list(ex.map(lambda n: (n, evaluate(n, a.tier, allp)), names))
+        lines = ["# Which quick check reports a VIOLATION for which seeded change", "",
+                 "Rows: kept seeded changes; columns: checks; X = exit 1 + VIOLATION, . = held, ? = inconclusive.", "",
+                 "| seed | " + " | ".join(p[1:] for p in allp) + " |", "|---|" + "---|" * len(allp)]
+        for n, r in res:
+            lines.append("| %s | " % n + " | ".join("X" if r[p]["caught"] else ("?" if r[p]["rc"] == 2 else ".") for p in allp) + " |")
+        open(os.path.join(SEEDED, "MATRIX.md"), "w").write("\n".join(lines) + "\n")
     elif a.cmd == "evalall":
         for m in sorted(glob.glob(os.path.join(SEEDED, "*", "meta.json"))):
             name = os.path.basename(os.path.dirname(m))
